@@ -402,7 +402,7 @@ func showAnswer(a answer, t0 uint32) string {
 var keyPool = []string{"a", "ab", "b", "ba", "c"}
 var valPool = []string{"x", "y", "1", "xa", "2"}
 var namePool = []string{"m", "cpu", "req", "n"}
-var rePool = []string{"x|y", "x.*", ".*", "1|2", "zz", "y|xa.*", "xa|1"}
+var rePool = []string{"x|y", "x.*", ".*", "1|2", "zz", "y|xa.*", "xa|1", "x", "a"}
 
 func subset(r *vhlib.Rng, pool []string, n int) []string {
 	idx := map[int]bool{}
@@ -560,7 +560,7 @@ func genMain(r *vhlib.Rng, arith bool) (dataset, []qspec) {
 	} else {
 		for _, n := range names {
 			keys := subset(r, keyPool, r.Range(2, 3))
-			d.Series = append(d.Series, genSeries(r, n, keys, r.Range(3, 6), r.Range(2, 3))...)
+			d.Series = append(d.Series, genSeries(r, n, keys, r.Range(3, 6), r.Range(2, 4))...)
 			mi = append(mi, metricInfo{n, keys})
 		}
 	}
@@ -705,7 +705,7 @@ var knownKinds = map[string][]string{
 	"agg_without_all_labels":           {"agg_wrong_groups"},
 	"selector_duplicate_label_matcher": {"selector_wrong_series", "agg_wrong_value", "agg_wrong_groups"},
 	"arith_label_order_mismatch":       {"arith_wrong_series"},
-	"arith_missing_sample_as_zero":     {"arith_wrong_value"},
+	"arith_missing_sample_as_zero":     {"arith_wrong_value", "arith_wrong_series"}, // a pair without any common timestamp still yields a series
 }
 
 // ---------- Coq emission ----------
@@ -816,7 +816,7 @@ func main() {
 	r := vhlib.NewRng(cfg.Seed)
 	mainRng, knownRng := r.Fork(), r.Fork()
 
-	nMain, nKnownRounds := 28, 1
+	nMain, nKnownRounds := 60, 2
 	if cfg.Thorough() {
 		nMain, nKnownRounds = 700, 12
 	}
